@@ -17,7 +17,7 @@ Step(e) ==
             ELSE TRUE
     [] e.op = "zc" -> Check(e.cached = e.direct, "caching_zone_returns_what_the_underlying_zone_returns")
     [] e.op = "ident" -> Check(e.same, "repeated_lookups_return_the_same_object")
-    [] e.op = "fmt" -> Check(e.text = e.pure, "pattern_and_format_info_lookup_independent_of_history")
+    [] e.op = "fmt" -> Check(~Has(e, "exc") /\ e.text = e.pure, "pattern_and_format_info_lookup_independent_of_history")
     [] e.op = "thr" ->     \* a thread history: all answers equal the pure function, identity stable
          /\ Check(e.all_pure, "answers_independent_of_concurrent_use")
          /\ Check(e.identity_stable, "concurrent_lookups_return_the_same_object")
